@@ -21,7 +21,7 @@ RULE = ("Histories over 19 operations {rewrite same size, rewrite other size, to
         "exhaustive histories are distinct by construction.")
 RULE += ' Also: replacement by a file of another size whose mtime was carried over (only ctime moves), If-None-Match lists with empty members and with a comma inside a tag, conditional requests sent as GET or HEAD, apps with every cacheability / max_age setting.'
 ASSUMPTIONS = [
-    "when the file clock steps backwards, a request that carries only If-Modified-Since is not judged (a date comparison cannot see a change with an earlier time); ETag-carrying requests are",
+    "a request that carries only If-Modified-Since is not judged when the change time of the file is not later than the date the client holds although it lies in another second (file clock stepped backwards, or a carried-over mtime ahead of ctime): a date comparison cannot see such a change; ETag-carrying requests are judged",
     "file timestamps come from a virtual clock (os.stat is wrapped for sandbox paths only); content is really written to disk",
     "same-size rewrites that move the timestamps by less than a second are unconstrained (the statement exempts them)",
     "Last-Modified-only revalidation of an unchanged file may be 200 or 304 (the 'always revalidates' clause is about the ETag)",
@@ -189,9 +189,11 @@ def run_history(ctx, vfs, iface, app, url_path, file_path, seq, start_frac, zone
                 if not unchanged:
                     nontriv = True
                 ctx.mon("stale-304-check")
-                if must_full and st != 200 and base == "lm" and (cur["c"] < j["c"] or cur["m"] < j["m"]):
-                    # a date comparison cannot see a change that carries an EARLIER time than the copy the client holds
-                    ctx.count("if-modified-since-only-after-backward-clock(not judged)")
+                if must_full and st != 200 and base == "lm" and int(j["c"]) != int(cur["c"]) and \
+                        (cur["c"] < j["c"] or cur["m"] < j["m"] or int(cur["c"]) <= int(j["m"])):
+                    # a date comparison cannot see a change whose time is not later than the date the client holds: the file clock stepped
+                    # backwards, or the copy the client has carried a modification time ahead of its own change time
+                    ctx.count("if-modified-since-only-with-a-date-not-earlier-than-the-change(not judged)")
                 elif must_full and st != 200 and base != "lm" and j["size"] == cur["size"] and j["m"] == cur["m"]:
                     # only ctime moved: a same-size replacement that carried the old mtime over. One mechanism whatever form the tag was sent in
                     ctx.violation("stale-304|entity-tag|same-size-and-mtime|only-ctime-changed", case,
@@ -221,7 +223,7 @@ def run_history(ctx, vfs, iface, app, url_path, file_path, seq, start_frac, zone
     return nontriv
 
 
-REGRESSION = [("etag", "adv2.5", "other", "back2.5", "other-keepm", "lm"), ("truncate0", "adv1", "other-keepm", "other-keepm", "list-long", "etag0"), ("adv1", "same", "back2.5", "same", "etag0"), ("back2.5", "same", "etag"), ("list-long",), ("etag-range",), ("lm-range",), ("other", "etag-range"), ("adv1", "other-keepm", "lm"), ("adv2.5", "other-keepm", "both"), ("list-empty",), ("list-comma",), ("other", "both"), ("weaklist",), ("list-last",), ("other", "lm"), ("adv1", "touch", "etag"), ("same", "adv2.5", "etag0"),
+REGRESSION = [("list-first", "back2.5", "other-keepm", "adv2.5", "both0", "same", "lm"), ("etag", "adv2.5", "other", "back2.5", "other-keepm", "lm"), ("truncate0", "adv1", "other-keepm", "other-keepm", "list-long", "etag0"), ("adv1", "same", "back2.5", "same", "etag0"), ("back2.5", "same", "etag"), ("list-long",), ("etag-range",), ("lm-range",), ("other", "etag-range"), ("adv1", "other-keepm", "lm"), ("adv2.5", "other-keepm", "both"), ("list-empty",), ("list-comma",), ("other", "both"), ("weaklist",), ("list-last",), ("other", "lm"), ("adv1", "touch", "etag"), ("same", "adv2.5", "etag0"),
               ("other", "adv1", "other", "lm0"), ("adv0.4", "same", "both"), ("touch", "weak"), ("adv1", "same", "lm")]
 
 
